@@ -76,6 +76,7 @@ def find_core_tokens(string, root):
                 in_image = False
         else:
             escaped = False
+            in_image = False
         i += 1
     if in_delimiter_run:
         delimiters.append(Delimiter(start, i, string))
